@@ -385,7 +385,7 @@ func genTime(g *genCtx) {
 // return by their deadlines (received bytes cannot keep a call alive: C05 / C13)
 func genFlood(g *genCtx) {
 	var ops []Op
-	for _, c := range []string{"sl", "cmd", "hs", "close"} {
+	for _, c := range []string{"sl", "cmd", "hs", "close", "sdr", "hsd"} {
 		ops = append(ops, Op{Class: 'P', NonTrivial: true, Kind: "time", Args: []string{c, "60", "150", "holeflood", "again"}})
 		ops = append(ops, Op{Class: 'P', NonTrivial: true, Kind: "time", Args: []string{c, "100", "300", "holeflood", "again"}})
 	}
